@@ -18,6 +18,7 @@ let () =
       string_of_n i ^ " " ^ b2s (should_invalidate i) ^ b2s (purges_others i) ^ b2s (resp_maybe_cacheable i));
   reg "purge.samehost" (fun [a; b] -> b2s (same_url_hosts (bytes_of_hex a) (bytes_of_hex b)));
   reg "purge.isrel" (fun [a] -> b2s (url_is_relative (bytes_of_hex a)));
+  reg "purge.encode" (fun [a] -> hex_of_bytes (encode_path (bytes_of_hex a)));
   (* purge.resolve <front> <path> <ref> <warm:0|1> -> absolute() of a copy of the Uri after path(ref) / addRelativePath(ref);
      warm=1: absolute() had been called on the original before (as maybePurgeOthers does) *)
   reg "purge.resolve" (fun [front; path; r; warm] ->
